@@ -6,7 +6,7 @@
 From DV Require Import Base.Prelude Model.NameM Model.TokM Model.RdTextM.
 From DV Require Import Proofs.NameValid Proofs.NameOrder Proofs.NameText.
 From DV Require Import Proofs.TokEsc Proofs.TokTxt Proofs.TokWords Proofs.TokDec Proofs.TokHex
-     Proofs.TokShape Proofs.TokGeneric Proofs.TokUtf8 Proofs.RdTextName Proofs.RdTextAddr Proofs.RdText Proofs.RdTextRel.
+     Proofs.TokShape Proofs.TokGeneric Proofs.TokUtf8 Proofs.RdTextName Proofs.RdTextAddr Proofs.RdTextBitmap Proofs.RdText Proofs.RdTextRel.
 Open Scope Z_scope.
 
 (* ------------------------------------------------------------------ character-strings *)
@@ -138,6 +138,29 @@ Example ipv6_text_examples :
     = Ok [58; 58; 102; 102; 102; 102; 58; 49; 46; 50; 46; 51; 46; 52]            (* ::ffff:1.2.3.4 *)
   /\ ipv6_aton [58; 58] = Ok (repeat 0 16).
 Proof. repeat split; vm_compute; reflexivity. Qed.
+
+(* ------------------------------------------------------------------ NSEC / NSEC3 / CSYNC type bitmaps *)
+
+(* dns/rdtypes/util.py Bitmap: the types printed by Bitmap.to_text (in that order), read back by
+   Bitmap.from_rdtypes (sort, skip duplicates, open a new window when the window number changes, set the
+   bit, remember the highest octet used), give the same windows - for every canonical bitmap (RFC 4034
+   4.1.2: window numbers increasing, 1..32 octets, last octet not zero; bit 0 of window 0 clear because
+   type 0 cannot be written).  The mnemonic layer (dns.rdatatype.to_text/from_text) is checked by the
+   correspondence (op 54 reads the printed mnemonics back). *)
+Theorem type_bitmap_roundtrip : forall ws,
+  canon_from (-1) ws -> no_type0 ws -> from_rdtypes (bitmap_types ws) = ws.
+Proof. exact bitmap_text_roundtrip. Qed.
+Print Assumptions type_bitmap_roundtrip.
+
+Example type_bitmap_roundtrip_nonvacuous :
+  (* A RRSIG NSEC (window 0, 6 octets) and CAA (window 1, 1 octet): the later window is shorter *)
+  let ws := [(0, [64; 0; 0; 0; 0; 3]); (1, [64])] in
+  canon_from (-1) ws /\ no_type0 ws /\ bitmap_types ws = [1; 46; 47; 257] /\ from_rdtypes [1; 46; 47; 257] = ws.
+Proof.
+  cbv zeta. split.
+  - cbn [canon_from fst]. unfold canon_window. cbn [fst snd]. repeat split; try lia; try discriminate; vm_compute; discriminate.
+  - split; [intros _; reflexivity|]. split; vm_compute; reflexivity.
+Qed.
 
 (* ------------------------------------------------------------------ RFC 3597 generic form *)
 
